@@ -686,6 +686,7 @@ pub struct Env {
     /// of each exchange)
     cache: Mutex<Option<SharedCache>>,
     record_held: bool,
+    sticky: Vec<(IpAddr, Fault)>,
     t0: tokio::time::Instant,
 }
 
@@ -777,6 +778,8 @@ impl Transport for MockTransport {
         };
         let fault = if !enabled || env.universe.silent.contains(&address.ip()) {
             Fault::Silent
+        } else if let Some((_, f)) = env.sticky.iter().find(|(a, _)| *a == address.ip()) {
+            f.clone()
         } else if env.faults.len() > 1 && in_window {
             let c = env.choose(PointKind::Fault, env.faults.len());
             env.faults[c].clone()
@@ -897,6 +900,9 @@ pub struct RunSpec {
     pub fault_window: usize,
     pub explore_orders: bool,
     pub record_held: bool,
+    /// servers that misbehave in one way on *every* exchange (no choice
+    /// point; positional faults apply to the other servers only)
+    pub sticky: Vec<(IpAddr, Fault)>,
 }
 
 #[derive(Debug, Clone)]
@@ -962,6 +968,7 @@ pub fn run_once(spec: &RunSpec, prefix: &[usize]) -> RunResult {
             }),
             cache: Mutex::new(None),
             record_held: spec.record_held,
+            sticky: spec.sticky.clone(),
             t0,
         });
         // hooks
